@@ -94,6 +94,9 @@ type MemDS struct {
 	failWrites int
 	// OnWrite, if set, is called (outside the lock) after every successful durable write.
 	OnWrite func(WriteRec)
+	// BeforeWrite, if set, is called (outside the lock) right before a durable write is applied, with the keys it is about to
+	// write: a scenario can hold the writer at an instant at which everything it wrote before is visible and this write is not.
+	BeforeWrite func(keys []string)
 	// Yield, if set, is called at the start of every call (used to widen interleavings).
 	Yield   func()
 	KeepRaw bool
@@ -188,6 +191,15 @@ type kv struct {
 // apply performs one durable write (one or several keys atomically).
 func (d *MemDS) apply(op string, items []kv) error {
 	d.mu.Lock()
+	if bw := d.BeforeWrite; bw != nil && !d.crashed {
+		d.mu.Unlock()
+		keys := make([]string, 0, len(items))
+		for _, it := range items {
+			keys = append(keys, it.k)
+		}
+		bw(keys)
+		d.mu.Lock()
+	}
 	if d.crashed {
 		d.mu.Unlock()
 		return ErrCrashed
